@@ -20,12 +20,11 @@ theorem c05_rtt_same_probe_icmp4 {s : IcmpSt} {pkt : Bytes} {t : Nat} {a : Bytes
     (h : icmpRecv s pkt = .accept t a d tm) (hv4 : ∃ b0, u8 pkt 0 = some b0 ∧ b0 / 16 = 4) :
     ∃ p ∈ s.sent, p.ttl = t ∧ p.time = tm := (icmp4_sound h hv4).2
 
-/-- ICMP/IPv6 (partial as `icmp6_sound_partial`: no quoted hop-by-hop header). -/
-theorem c05_rtt_same_probe_icmp6_partial {s : IcmpSt} {pkt : Bytes} {t : Nat} {a : Bytes} {d : Bool} {tm : Nat}
+/-- ICMP/IPv6 (unrestricted since the fix for F11, see `c01_icmp6_sound`). -/
+theorem c05_rtt_same_probe_icmp6 {s : IcmpSt} {pkt : Bytes} {t : Nat} {a : Bytes} {d : Bool} {tm : Nat}
     (hmin : 1 ≤ s.cfg.min)
-    (h : icmpRecv s pkt = .accept t a d tm) (hv6 : ∃ b0, u8 (pkt.take bufSize) 0 = some b0 ∧ b0 / 16 = 6)
-    (hnoq : ∀ k, u8 (pkt.take bufSize) (k + 8 + 6) ≠ some 0 ∨ d = true) :
-    ∃ p ∈ s.sent, p.ttl = t ∧ p.time = tm := (icmp6_sound_partial hmin h hv6 hnoq).2
+    (h : icmpRecv s pkt = .accept t a d tm) (hv6 : ∃ b0, u8 (pkt.take bufSize) 0 = some b0 ∧ b0 / 16 = 6) :
+    ∃ p ∈ s.sent, p.ttl = t ∧ p.time = tm := (icmp6_sound hmin h hv6).2
 
 /-- UDP/IPv4. -/
 theorem c05_rtt_same_probe_udp4 {s : UdpSt} {pkt : Bytes} {t : Nat} {a : Bytes} {d : Bool} {tm : Nat}
@@ -281,7 +280,7 @@ example : e2eOnce (ε := Unit) (fun a _ => .ok [{ ttl := a, ip := [], rtt := 0, 
 example : rttOf 1000 400 = 600 := by decide
 
 #print axioms c05_rtt_same_probe_icmp4
-#print axioms c05_rtt_same_probe_icmp6_partial
+#print axioms c05_rtt_same_probe_icmp6
 #print axioms c05_rtt_same_probe_udp4
 #print axioms c05_rtt_same_probe_udp6
 #print axioms c05_rtt_same_probe_tcp
